@@ -186,7 +186,7 @@ func TestC07(t *testing.T) {
 	var inputs []input
 	stride := ev.Pick(7, 1)
 	all := seeds.All()
-	for _, sd := range all {
+	for _, sd := range append(seeds.Hostile(), all...) {
 		p, in := positions(sd, sd.Data, stride)
 		inputs = append(inputs, input{sd.Name, sd.Data, p, in})
 	}
